@@ -203,9 +203,21 @@ class RSite:
         for host, o in self.origins.items():
             pages = {}
             for path, p in o['pages'].items():
-                if p['kind'] == 'html':
-                    meta = '<meta name="robots" content="%s">' % p['meta'] if p.get('meta') else None
-                    pages[path] = Page(200, html(p['links'], p.get('inline', []), meta=meta))
+                if p['kind'] == 'html' and p.get('meta'):
+                    # a page declaring nofollow; the declaration may come before or AFTER the links
+                    meta = '<meta name="robots" content="%s">' % p['meta']
+                    links = ''.join('<a href="%s">x</a>' % l for l in p['links'])
+                    imgs = ''.join('<img src="%s">' % l for l in p.get('inline', []))
+                    pos = p.get('meta_pos', 'head')
+                    if pos == 'head':
+                        doc = '<html><head>%s</head><body>%s%s</body></html>' % (meta, links, imgs)
+                    elif pos == 'head-after-link':
+                        doc = '<html><head><link rel="next" href="%s">%s</head><body>%s%s</body></html>' % (p['links'][0], meta, links, imgs)
+                    else:
+                        doc = '<html><head><title>t</title></head><body>%s%s%s</body></html>' % (links, imgs, meta)
+                    pages[path] = Page(200, doc.encode(), headers=[('Refresh', '5; url=%s' % p['links'][0])] if p.get('refresh') else None)
+                elif p['kind'] == 'html':
+                    pages[path] = Page(200, html(p['links'], p.get('inline', [])))
                 elif p['kind'] == 'redirect':
                     pages[path] = Page(302, b'', location=p['location'])
                 else:
@@ -220,7 +232,9 @@ class RSite:
             elif r['kind'] == 'error':
                 pages['/robots.txt'] = Page(503, b'busy', ctype='text/plain')
             elif r['kind'] == 'redirect':
-                pages['/robots.txt'] = Page(301, b'', location='/r2.txt')
+                moved = (b'<html><head><title>301 Moved Permanently</title></head><body><h1>Moved Permanently</h1>'
+                         b'<p>The document has moved <a href="/r2.txt">here</a>.</p>' + b'<!-- pad -->' * 40 + b'</body></html>')
+                pages['/robots.txt'] = Page(301, moved if r.get('redirect_body', True) else b'', location='/r2.txt')
                 pages['/r2.txt'] = Page(200, r['text'].encode('latin-1'), ctype='text/plain')
             out[host] = pages
         return out
@@ -253,6 +267,8 @@ def gen_rsite(rng, big=None):
                 groups.append('User-agent: otherbot\nDisallow: /\n')
             rng.shuffle(groups)
             text = '\n'.join(groups)
+            if rng.random() < 0.5:
+                text = text.rstrip('\n')        # last rule without a line end
             if big if big is not None else rng.random() < 0.25:
                 # the deciding rule comes after more than 4 KiB of other (irrelevant) rules
                 pad = ''.join('Disallow: /zz%04d\n' % i for i in range(300))
@@ -262,7 +278,8 @@ def gen_rsite(rng, big=None):
             links = [q if rng.random() < 0.8 else 'http://%s%s' % (rng.choice(hosts), q)
                      for q in rng.sample(names, rng.randint(1, 4)) if q != '/only-nf']
             if p == '/nf':
-                pages[p] = {'kind': 'html', 'links': ['/only-nf', '/a'], 'inline': ['/p.png'], 'meta': rng.choice(['nofollow', 'noindex, nofollow', 'NOFOLLOW'])}
+                pages[p] = {'kind': 'html', 'links': ['/only-nf', '/a'], 'inline': ['/p.png'], 'meta': rng.choice(['nofollow', 'noindex, nofollow', 'NOFOLLOW']),
+                            'meta_pos': rng.choice(['head', 'head-after-link', 'body-end']), 'refresh': rng.random() < 0.3}
             elif p in ('/p.png', '/only-nf'):
                 pages[p] = {'kind': 'leaf'}
             elif p == '/pub/z' and rng.random() < 0.3:
